@@ -42,7 +42,7 @@ m = {
     }],
     "checks": checks,
     "not_applicable": na,
-    "notes": "Every verdict is 'held on the executions observed'. exit 3 + INCONCLUSIVE (no VIOLATION line) when a shard died, a watchdog fired or a must-see counter stayed at zero. known_findings.json lists recorded genuine defects (KNOWN-FINDING lines) and the fixed ones.",
+    "notes": "Every verdict is 'held on the executions observed'. exit 3 + INCONCLUSIVE (no VIOLATION line) when a shard died, a watchdog fired or a must-see counter stayed at zero. known_findings.json lists recorded genuine defects (KNOWN-FINDING lines) and the fixed ones. Shards rotate through library configurations (defaults; trace logging; run-time type checks where the generator is well-typed; postponed annotations; a foreign-history prelude that uses the other subsystems first; early class-level introspection) - each evidence file names them under coverage.observations.library_configuration (DESIGN.md 6.9, 6.18).",
 }
 json.dump(m, open(os.path.join(HERE, "MANIFEST.json"), "w"), indent=1)
 print("checks:", [c["property_id"] for c in checks], "na:", [n["property_id"] for n in na])
